@@ -7,6 +7,7 @@
 package c14
 
 import (
+	upgradetypes "github.com/cosmos/cosmos-sdk/x/upgrade/types"
 	"encoding/json"
 	"fmt"
 	"os"
@@ -30,7 +31,7 @@ import (
 )
 
 // Scenarios lists the scenario names.
-var Scenarios = []string{"relay", "aggregate", "rvesting", "adapters", "clients", "eth-pow", "bsc-search"}
+var Scenarios = []string{"relay", "aggregate", "rvesting", "adapters", "clients", "eth-pow", "bsc-search", "upgrade"}
 
 // RunScenario executes one scenario and returns its trace.
 func RunScenario(name string) []string {
@@ -71,6 +72,8 @@ func RunScenario(name string) []string {
 		ethPow()
 	case "bsc-search":
 		bscSearch(&trace)
+	case "upgrade":
+		upgrade()
 	default:
 		panic("unknown scenario " + name)
 	}
@@ -144,5 +147,27 @@ func bscSearch(trace *[]string) {
 			frontier = next
 		}
 		*trace = append(*trace, fmt.Sprintf("teleport_search N=%d E=%d states=%d transitions=%d", b.N, b.Epoch, len(seen), n))
+	}
+}
+
+// upgrade: the registered software-upgrade handler ("v0.2": system contracts re-installed, xibc state reset, module
+// migrations) runs in the BeginBlock of the planned height; traffic before and after it.
+func upgrade() {
+	s := relay.New(relay.Config{Chains: 2, MaxSends: 6})
+	for _, op := range []string{"send A B erc20 3", "upd B A", "upd B A", "recv A>B#1 g1"} {
+		s.Apply(op)
+	}
+	w := s.World()
+	for _, n := range w.Order {
+		c := w.Chains[n]
+		w.Do(c, func(ctx sdk.Context) {
+			// planned for the next block (a binary that holds the handler must not see the plan any earlier)
+			if err := c.App.UpgradeKeeper.ScheduleUpgrade(ctx, upgradetypes.Plan{Name: "v0.2", Height: ctx.BlockHeight() + 1}); err != nil {
+				panic(err)
+			}
+		})
+		for i := 0; i < 4; i++ {
+			w.Block(c)
+		}
 	}
 }
